@@ -171,6 +171,18 @@ func (r rec) mismatched() bool {
 	return false
 }
 
+// binCtx is a context ID that is not valid UTF-8.
+const binCtx = "\xff\xfe\x01\x80"
+
+func (r rec) hasBinaryCtx() bool {
+	for _, c := range r.ctxs {
+		if c.id == binCtx {
+			return true
+		}
+	}
+	return false
+}
+
 func (r rec) build() *model.ProviderInfo {
 	pi := &model.ProviderInfo{AddrInfo: peer.AddrInfo{ID: mainID, Addrs: addrs[0]}, LastAdvertisementTime: "2024-01-01T00:00:00Z"}
 	if !r.hasExt {
@@ -318,6 +330,7 @@ func TestCheck(t *testing.T) {
 
 	lookups := []struct{ ctx, md []byte }{
 		{[]byte("c"), lookedUp}, {[]byte("c"), nil}, {[]byte("d"), lookedUp}, {[]byte("d"), nil}, {[]byte{}, lookedUp}, {nil, nil},
+		{[]byte(binCtx), lookedUp}, {[]byte(strings.ToValidUTF8(binCtx, "\uFFFD")), lookedUp},
 	}
 
 	run := func(rc rec) {
@@ -329,6 +342,9 @@ func TestCheck(t *testing.T) {
 		// the constructor, or by the first lookup missing (no preload)
 		for _, entry := range []string{"preload", "miss"} {
 			for _, viaJSON := range []bool{false, true} {
+				if viaJSON && rc.hasBinaryCtx() {
+					continue // JSON cannot carry a string that is not UTF-8 unchanged
+				}
 				pi := rc.build()
 				if viaJSON {
 					b, err := json.Marshal(pi)
@@ -434,6 +450,19 @@ func TestCheck(t *testing.T) {
 		for _, cs := range ctxSets {
 			for _, ov := range []bool{false, true} {
 				run(rec{hasExt: true, chain: ch, ctxs: []ctxSet{{"c", ov, cs}}})
+			}
+		}
+	}
+	// C': the contextual set registered under a context ID that is not text
+	// (context IDs are opaque bytes), looked up with exactly those bytes and
+	// with their "repaired" UTF-8 form, which is another context ID
+	for _, ch := range chains {
+		if len(ch.entries) > 1 {
+			continue
+		}
+		for _, cs := range ctxSets {
+			for _, ov := range []bool{false, true} {
+				run(rec{hasExt: true, chain: ch, ctxs: []ctxSet{{binCtx, ov, cs}}})
 			}
 		}
 	}
